@@ -206,7 +206,7 @@ extern "C" void h_lq_conc() {
             LQ q(limit); c.q = &q;
             for (int i = 0; i < nprefix; i++) { conc_op(vf_choice(2), vals[nv++], ++c.clock); }
             conc_quiescent(limit);
-            const int akind = vf_choice(2);
+            const int akind = vf_choice(3);
             conc_bkind = vf_choice(3);
             const int k = 1 + vf_choice(3);
             conc_stamp = ++c.clock; conc_bval = vals[nv++];
